@@ -33,7 +33,7 @@ func init() { engines["life"] = engLife }
 //       | (9 conn now topic payload qos retain)                       PUBLISH
 //       | (10 conn now)                                               a second CONNECT (protocol error)
 // outs  = ((conn (pkt...) closedNow doneNow)...)   pkt = (type rc sp topic payload qos retain dup)
-// hooks = ((name client extra)...)
+// hooks = ((name client extra)...)   incl. (QosDropped id payload) and (Unsubscribed id filter) for the C14 clean-start clause
 // snap  = (clients index wills retained)
 //   client = (id conn open takenover disc ver clean sei seiflag willflag (sub...) (inflightpayload...))
 //   index  = (id filter qos)   will = (id due topic payload qos retain)   retained = (topic payload)
@@ -306,6 +306,14 @@ func (h *lifeH) emit(op sx.L, t0 int64) {
 		switch e.Name {
 		case "WillSent", "ClientExpired", "Disconnect", "PANIC":
 			hooks = append(hooks, sx.L{sx.S(e.Name), sx.S(e.Client), sx.S(e.Extra)})
+		case "QosDropped": // an in-flight record released with a report (ClearInflights, expiry): client id + payload
+			if e.Pk.FixedHeader.Type == packets.Publish {
+				hooks = append(hooks, sx.L{sx.S(e.Name), sx.S(e.Client), sx.B(e.Pk.Payload)})
+			}
+		case "Unsubscribed": // one tuple per filter
+			for _, f := range e.Pk.Filters {
+				hooks = append(hooks, sx.L{sx.S(e.Name), sx.S(e.Client), sx.S(f.Filter)})
+			}
 		}
 	}
 	h.last = h.b.Srv.VerifLifeSnapshot()
@@ -906,6 +914,11 @@ func lifeConnectProduct(seed int64, tier string, out *sx.Out) {
 									}
 									n++
 									if tier != "thorough" && (p.ver == 6 || p.name == "" || p.name == "mqtt") && (n%4 != 0) {
+										continue
+									}
+									// quick tier: the standard name/version pairs without reserved bit in full, the rest sampled
+									core := !reserved && ((p.name == "MQTT" && (p.ver == 4 || p.ver == 5)) || (p.name == "MQIsdp" && p.ver == 3))
+									if tier != "thorough" && !core && n%3 != 0 {
 										continue
 									}
 									caps := defaultLifeCaps()
